@@ -879,6 +879,22 @@ func c06Norm(s ref.PMTSection) ref.PMTSection {
 // descriptors, then one last stream whose descriptors fill the remainder (its ES_info_length
 // exceeds 255 when there is room).
 func c06BigSection(target, variant int) ref.PMTSection {
+	if variant == 2 {
+		// as many elementary streams as fit, none with descriptors (the stream count passes 127 and, at the
+		// maximal section, reaches 201); the bytes left over go into one program descriptor
+		s := ref.PMTSection{Program: 0x0303, Version: byte(target & 31), CurrentNext: true, PCRPID: 0x31}
+		n, r := (target-13)/5, (target-13)%5
+		if r == 1 {
+			n, r = n-1, 6
+		}
+		if r >= 2 {
+			s.ProgDescs = []ref.Desc{{Tag: 0xFB, Body: make([]byte, r-2)}}
+		}
+		for i := 0; i < n; i++ {
+			s.Streams = append(s.Streams, ref.Stream{Type: c06Types[i%len(c06Types)], PID: 0x31 + i*3})
+		}
+		return s
+	}
 	s := ref.PMTSection{Program: uint16(0x0101 * (variant + 1)), Version: byte((target + variant) & 31), CurrentNext: variant%2 == 0, PCRPID: 0x31}
 	if variant > 0 {
 		s.ProgDescs = []ref.Desc{c06DescMenu[2], c06DescMenu[5]}
@@ -1034,6 +1050,12 @@ func c06GenBig(r *engine.Run, emit func(c06BigCase)) {
 			}
 		}
 	}
+	// many descriptor-less streams: 125..129 and the maximum of 201
+	for _, sl := range []int{13 + 5*125, 13 + 5*127, 13 + 5*128 + 2, 13 + 5*129, 1021} {
+		for _, lead := range []int{0, 7} {
+			emit(c06BigCase{sl, 2, lead, false})
+		}
+	}
 }
 
 // ---- scenario "table-header-codec" ----------------------------------------------------------------------
@@ -1157,7 +1179,7 @@ func init() {
 			},
 			&engine.Enum[c06BigCase]{
 				Name: "large-sections",
-				Rule: "case = section padded to an exact section_length in {150,180,181,184,400,1021} (thorough: 16 lengths around the one-, two- and three-packet limits up to the maximal 1021) x 2 content variants x lead-in {pointer_field 0, pointer_field 100 with filler, foreign section first} x last-packet style (quick: one style per variant); the last stream's ES_info_length exceeds 255; per case: accessors, done predicate on every prefix, ExtractCRC, NewPMT, ReadPMT for every first-packet size 1..184 x second packet full/3 bytes with a foreign-PID packet in every gap; non-trivial = each (case, first size, second size)",
+				Rule: "case = section padded to an exact section_length in {150,180,181,184,400,1021} (thorough: 16 lengths around the one-, two- and three-packet limits up to the maximal 1021) x 2 content variants (plus a third with as many descriptor-less streams as fit: 125, 127, 128, 129 and 201 streams) x lead-in {pointer_field 0, pointer_field 100 with filler, foreign section first} x last-packet style (quick: one style per variant); the last stream's ES_info_length exceeds 255; per case: accessors, done predicate on every prefix, ExtractCRC, NewPMT, ReadPMT for every first-packet size 1..184 x second packet full/3 bytes with a foreign-PID packet in every gap; non-trivial = each (case, first size, second size)",
 				Gen:  c06GenBig, Check: witnessEnum(c06CheckBig, witnessPSI), Batch: 1,
 			},
 			&engine.Enum[c06ReuseCase]{
